@@ -16,8 +16,8 @@ EXPLANATION = (
     "crate, checked on every run only by comparing, on tiny configurations, the outcome SET (and the number of "
     "executions) reached by the real bolero exhaustive engine (same call sequence as CompiledSim::exhaustive) with "
     "the set the Coq model reaches by brute force over all decision strings, and with an independently enumerated "
-    "set of demanded schedules (spec_outcomes / spec_tick_outcomes in Sim/Exh.v); (2) uniqueness of the decision string "
-    "(no duplicate schedule) for keyed hooks and run_hooks as a theorem - only the bounded comparison of execution counts; "
+    "set of demanded schedules (spec_outcomes / spec_tick_outcomes in Sim/Exh.v); (2) (uniqueness of the decision string is proved for every modelled hook kind, "
+    "run_hooks as a whole and the scheduler choice, and cross-checked by execution counts); "
     "(3) TopLevel*/inline hooks have only partial completeness theorems. End-to-end tie: small Hydro programs (one tick/one "
     "hook TotalOrder and NoOrder, two independent ticks, one tick with two hooks) are compiled by the real pipeline "
     "(FlowBuilder -> sim() -> trybuild dylib, cached) and run under CompiledSim::exhaustive; the set of outcomes AND the "
@@ -73,7 +73,8 @@ class C37(SimSpec):
     theorems = ["C37_total_every_prefix_partial", "C37_noorder_every_subset_partial",
                 "C37_noorder_no_duplicate_partial", "C37_single_every_version_partial",
                 "C37_keyed_total_every_combination", "C37_keyed_noorder_every_combination",
-                "C37_ksingle_every_combination", "C37_keyed_no_duplicate", "C37_every_hook_schedule",
+                "C37_ksingle_every_combination", "C37_keyed_no_duplicate", "C37_ksingle_no_duplicate",
+                "C37_every_hook_no_duplicate", "C37_run_hooks_no_duplicate", "C37_every_hook_schedule",
                 "C37_run_hooks_every_combination", "C37_scheduler_every_choice",
                 "C37_scheduler_every_order", "C37_top_order_every_element",
                 "C37_inline_merge_every_interleaving"]
